@@ -129,6 +129,9 @@ class BGP(protocol.Protocol):
                 error_str = traceback.format_exc()
                 LOG.debug(error_str)
                 self.factory.bgp_id = int(netaddr.IPAddress('127.0.0.1'))
+        # the timers negotiated with the previous session do not outlive it
+        self.fsm.hold_time = CONF.time.hold_time
+        self.fsm.keep_alive_time = CONF.time.keep_alive_time
         try:
             self.fsm.connection_made()
         except Exception as e:
